@@ -53,6 +53,8 @@ class World:
         self.fresh = 0
         self.points = {}
         self.inside = set()  # (key of inner ring, key of outer ring): declared by the harness
+        self.invalid = set()  # keys of rings that GEOS would call invalid (self-intersecting): declared by the harness
+        self.disjoint = set()  # frozenset of two ring keys: declared by the harness
 
     def region_of(self, ring, qkey, sign):
         """membership of query point `qkey` in the region bounded by `ring`"""
@@ -83,6 +85,17 @@ WORLD = World()
 def mark_inside(inner_points, outer_points):
     """harness declaration: the polygon with vertices `inner_points` lies strictly inside the other one"""
     WORLD.inside.add((_key(_canon(_rows(inner_points))), _key(_canon(_rows(outer_points)))))
+
+
+def mark_invalid(points):
+    """harness declaration: GEOS' validity verdict for the ring with these vertices is 'invalid'
+    (e.g. a self-intersecting bow-tie); every concrete replay asks the real library"""
+    WORLD.invalid.add(_key(_canon(_rows(points))))
+
+
+def mark_disjoint(a_points, b_points):
+    """harness declaration: the two polygons have no point in common"""
+    WORLD.disjoint.add(frozenset((_key(_canon(_rows(a_points))), _key(_canon(_rows(b_points))))))
 
 
 def reset():
@@ -168,13 +181,17 @@ class ModelPolygon:
         self._ring = ring
         self.exterior = ModelRing(ring)
         self.interiors = [ModelRing(_rows(h)) for h in (holes or [])]
-        self.is_valid = True  # validity is GEOS' verdict: assumed (listed in the evidence)
         self.is_empty = False
         if isinstance(shell, ModelPolygon):
             # Polygon(polygon) is the same geometry, interior rings included
             self.interiors = list(shell.interiors)
             if getattr(shell, "_ccw_known", False):
                 self._ccw_known = True
+
+    @property
+    def is_valid(self):
+        # validity is GEOS' verdict: assumed unless the harness declared this ring invalid (listed in the evidence)
+        return _key(_canon(self._ring)) not in WORLD.invalid
 
     @property
     def area(self):
@@ -204,6 +221,15 @@ class ModelPolygon:
         ring = []
         for i in range(n):
             ring.append((Sc(z3.Real(f"setop{tag}_x{i}")), Sc(z3.Real(f"setop{tag}_y{i}"))))
+        if frozenset((_key(_canon(self._ring)), _key(_canon(other._ring)))) in WORLD.disjoint:
+            # GEOS: the union of two disjoint polygons is a MultiPolygon, their intersection an empty polygon
+            if op == "union":
+                return ModelMulti()
+            if op == "intersection":
+                res = ModelPolygon(_ring_array(ring))
+                res.is_empty = True
+                return res
+            return self
         if op == "difference" and (_key(_canon(other._ring)), _key(_canon(self._ring))) in WORLD.inside:
             # the subtrahend lies strictly inside: the result is the minuend's outline with an interior ring
             # (its exterior in whatever orientation the library chooses: not assumed)
@@ -229,6 +255,13 @@ class ModelPolygon:
 
     def buffer(self, *a, **k):
         raise C.Unsupported("shapely buffer (GEOS)")
+
+
+class ModelMulti:
+    """a geometry that is not a single polygon (MultiPolygon / GeometryCollection)"""
+
+    is_empty = False
+    is_valid = True
 
 
 def _ring_array(ring):
